@@ -8,7 +8,7 @@ ASSUMPTIONS = [
     'virtual clock, gated store: every storage call is a yield point (as on disk/redis/cloud), so backoff 0 and flush can interleave with the retry bookkeeping',
 ]
 
-CFGS = [dict(max_msgs=2, flush=True, race_announce=True), dict(max_msgs=3, flush=True, relay_pool=1), dict(max_msgs=3, flush=False, relay_pool=2, foreign=True),
+CFGS = [dict(max_msgs=2, flush=True, race_announce=True), dict(max_msgs=2, flush=True, case_twins=True), dict(max_msgs=3, flush=True, relay_pool=1), dict(max_msgs=3, flush=False, relay_pool=2, foreign=True),
         dict(max_msgs=2, flush=True, backend='disk'), dict(max_msgs=2, flush=False, backend='cloud'),
         dict(max_msgs=2, flush=True), dict(max_msgs=3, flush=False), dict(max_msgs=1, flush=True), dict(max_msgs=2, flush=True, foreign=True)]
 
@@ -16,6 +16,8 @@ CFGS = [dict(max_msgs=2, flush=True, race_announce=True), dict(max_msgs=3, flush
 def run(ctx):
     for backend in ('dict', 'shelve', 'disk', 'cloud', 'redis'):
         qharness.scripted_rounds(ctx, ('c03',), backend)
+        qharness.scripted_rounds(ctx, ('c03',), backend, rcpts=(100, 0, 2, 3))
+        qharness.scripted_rounds(ctx, ('c03',), backend, rcpts=(2, 0, 100, 3))
         qharness.scripted_restart(ctx, ('c03',), backend)
     ctx.extra['rule'] = ('random schedules as for C12 (per-recipient outcome histories over several rounds with 1-4 recipients, backoff 0 included, '
                          'flush, announcements through load()/wait()); oracle: attempt intervals of one id never overlap and no attempt includes a '
